@@ -860,3 +860,48 @@ def inc_dec_pairing(ctx, fn, rule="R-INFLIGHT", fields_rx=None):
                               "the count of items in flight never returns to zero" %
                               (fld.rsplit("::", 1)[-1], c["ln"], bad, sorted(cc["ln"] for _, cc in d["fetch_sub"])), fn.file, c["ln"])
     return n
+
+
+# ------------------------------------------------------------------ R-COUNT.rmw
+def counter_only_rmw(ctx, fx, file, struct_path, fields, rule="R-COUNT.rmw", only=None, constructors=("new", "default")):
+    """A counter of live objects (one +1 per acquire, one -1 per release) is only ever changed by read-modify-write steps.
+    A plain `store` / `swap` of a value into it outside the constructor overwrites the contribution of every other live
+    object: the reported count no longer equals the number of live tokens and whatever is derived from `count == 0`
+    (advancing the reclamation threshold) fires while tokens are live."""
+    from rules.queue import field_of_receiver
+    rmw = n = 0
+    for fid in fx.fn_ids(file):
+        last = fid.rsplit("::", 1)[-1]
+        if "::tests::" in fid or (only and not only(fid)):
+            continue
+        fn = Fn(fx.raw(fid))
+        for b, c in fn.calls():
+            m = re.search(r"atomic::Atomic\w*(::<[^>]*>)?::(\w+)$", c["f"])
+            if not m or not c["a"]:
+                continue
+            r = op_local(c["a"][0])
+            if r is None:
+                continue
+            flds = field_of_receiver(fn, r, struct_path) & set(fields)
+            if not flds:
+                continue
+            op = m.group(2)
+            if op in ("fetch_add", "fetch_sub", "compare_exchange", "compare_exchange_weak", "fetch_update"):
+                rmw += 1
+                continue
+            if op not in ("store", "swap") or last in constructors:
+                continue
+            n += 1
+            ctx.analysed_fns.add(fid)
+            f = sorted(flds)[0]
+            ctx.obligation(rule, fid, "%s changed by RMW only" % f, False, sample={"fn": fid, "field": f, "op": op, "line": c["ln"]})
+            ctx.violation(rule, fid, "%s overwritten with %s()" % (f, op),
+                          "%s counts live tokens (+1 per acquire, -1 per release); %s() at line %s overwrites the contribution of every "
+                          "other live token, so the count - and the minimum version advanced when it reads 0 - is wrong as soon as two "
+                          "tokens are live" % (f, op, c["ln"]), fn.file, c["ln"])
+    ctx.instance(rule + ".rmw_sites", rmw)
+    ctx.instance(rule + ".plain_writes", n)
+    if rmw:
+        ctx.obligation(rule, struct_path, "counters %s: %d RMW sites, %d plain writes" % ("/".join(fields), rmw, n), n == 0,
+                       sample={"struct": struct_path, "fields": list(fields), "rmw_sites": rmw, "plain_writes": n})
+    return rmw
